@@ -78,6 +78,7 @@ type Disk struct {
 	SmallWB    bool // open databases with a tiny write buffer so that table files and compactions exist
 	KeepLog    bool
 	openDBs    int64
+	openPaths   map[string]int
 	OpenedNames map[string]bool // base names of every directory that was successfully opened as a database in this run
 }
 
@@ -255,6 +256,10 @@ func (d *Disk) OpenLevelDB(path string, o *opt.Options) (*leveldb.DB, error, boo
 		d.OpenedNames = map[string]bool{}
 	}
 	d.OpenedNames[filepath.Base(path)] = true
+	if d.openPaths == nil {
+		d.openPaths = map[string]int{}
+	}
+	d.openPaths[filepath.Base(path)]++
 	d.mu.Unlock()
 	return db, nil, true
 }
@@ -314,6 +319,23 @@ func (l simLocker) Unlock() {
 	l.Locker.Unlock()
 	l.f.Storage.Close() // releases the flock so that the same path can be opened again
 	atomic.AddInt64(&l.f.d.openDBs, -1)
+	l.f.d.mu.Lock()
+	if l.f.d.openPaths[filepath.Base(l.f.path)]--; l.f.d.openPaths[filepath.Base(l.f.path)] <= 0 {
+		delete(l.f.d.openPaths, filepath.Base(l.f.path))
+	}
+	l.f.d.mu.Unlock()
+}
+
+// OpenDatabases lists the base names of the directories that are currently open as databases.
+func (d *Disk) OpenDatabases() []string {
+	d.mu.Lock()
+	defer d.mu.Unlock()
+	var out []string
+	for k := range d.openPaths {
+		out = append(out, k)
+	}
+	sort.Strings(out)
+	return out
 }
 
 func (f *faultyStorage) Lock() (storage.Locker, error) {
